@@ -629,6 +629,9 @@ func (ex *Exec) backEdge(from, to *ssa.BasicBlock, cond string) {
 	}
 	env := ex.loopEnv(li, st)
 	pos := firstPos(to)
+	for _, u := range lc.Uses {
+		ex.useAxiom(u, env, cond)
+	}
 	for i, inv := range lc.Invariants {
 		ex.obligeLabel("inv-keep", cond, env.evalBool(inv.Expr), pos, fmt.Sprintf("loop#%d:%s", li.ordinal, invLabel(inv, i)))
 	}
@@ -820,6 +823,9 @@ func (eng *Engine) VerifyFunc(fn *ssa.Function, fc *FuncContract) (em *Emitter, 
 	em.emit(fmt.Sprintf("(assert (> %s 0))", ex.top0))
 	// global axioms
 	for _, ax := range eng.CS.Axioms {
+		if ax.Manual {
+			continue
+		}
 		env := &Env{ex: ex, st: st, old: st, vars: map[string]Val{}, pkg: eng.typesPkgOr(ax.Pkg, fn.Pkg.Pkg), where: "axiom " + ax.Name}
 		em.emit("(assert " + env.evalBool(ax.Expr) + ") ; axiom " + ax.Name)
 		em.Assumed["axiom "+ax.Name+": "+ax.Text] = true
